@@ -300,6 +300,19 @@ func (d *GNMIDevice) WaitGets(n int) {
 	}
 }
 
+// SetGetNotifs sets what the device answers a Get with.
+func (d *GNMIDevice) SetGetNotifs(ns []*gnmi.Notification) {
+	d.mu.Lock()
+	defer d.mu.Unlock()
+	d.GetNotifs = ns
+}
+
+func (d *GNMIDevice) NumSubscribers() int {
+	d.mu.Lock()
+	defer d.mu.Unlock()
+	return len(d.subs)
+}
+
 func (d *GNMIDevice) NumGets() int {
 	d.mu.Lock()
 	defer d.mu.Unlock()
